@@ -89,6 +89,7 @@ def run_property(prop, tier, repo=None, quiet=False):
     """-> (exit_code, ctx or None, message lines)"""
     from . import props
     mod = props.load(prop)
+    ctx = None
     try:
         repo = repo or Repo.load()
         ctx = Ctx(prop, repo, tier)
@@ -97,6 +98,13 @@ def run_property(prop, tier, repo=None, quiet=False):
             raise AnalysisError("no obligation bound to any construct")
         return 0, ctx, []
     except AnalysisError as e:
+        try:
+            if ctx is not None and any(r.status == "violation" for r in ctx.results):
+                # violations already identified positively stay reportable; the run is marked incomplete
+                ctx.notes.append(f"analysis incomplete: {e}")
+                return 3, ctx, [f"ANALYSIS-ERROR property={prop} {e}"]
+        except NameError:
+            pass
         return 2, None, [f"ANALYSIS-ERROR property={prop} {e}"]
     except Exception as e:  # analyser bug: never a violation
         tb = traceback.format_exc().strip().splitlines()
@@ -202,6 +210,11 @@ def main(argv=None):
             print(m)
         return 2
     viol, kn = classify(ctx)
+    if code == 3:
+        for m in msgs:
+            print(m)
+        if not viol:
+            return 2
     if a.replay:
         with open(a.replay if os.path.isabs(a.replay) else os.path.join(VERIF, a.replay)) as f:
             want = json.load(f)
